@@ -326,20 +326,31 @@ class Engine:
         return False
 
     def _portfolio(self, goal):
-        """Second opinion for `unknown`: the nlsat tactic on the pure-real part (no UFs / ints)."""
-        t = time.time()
-        try:
-            s = z3.Tactic("qfnra-nlsat").solver()
-            s.set("timeout", self.prove_timeout)
-            s.add(*self.solver.assertions())
-            s.add(goal)
-            r = s.check()
-            m = s.model() if r == z3.sat else None
-        except z3.Z3Exception:
-            r, m = z3.unknown, None
-        self.tsolve += time.time() - t
-        self.nq["nlsat:" + str(r)] += 1
-        return r, m
+        """Second opinions for `unknown`: the nlsat tactic on the pure-real part (fails fast when UFs or
+        ints occur), then fresh default solvers with other random seeds.  Any definite answer wins."""
+        asserts = list(self.solver.assertions())
+        attempts = [("nlsat", None), ("seed", 7), ("seed", 23), ("seed", 101)]
+        for kind, seed in attempts:
+            t = time.time()
+            try:
+                if kind == "nlsat":
+                    s = z3.Tactic("qfnra-nlsat").solver()
+                else:
+                    s = z3.Solver()
+                    s.set("random_seed", seed)
+                    s.set("smt.arith.random_initial_value", True)
+                s.set("timeout", self.prove_timeout)
+                s.add(*asserts)
+                s.add(goal)
+                r = s.check()
+                m = s.model() if r == z3.sat else None
+            except z3.Z3Exception:
+                r, m = z3.unknown, None
+            self.tsolve += time.time() - t
+            self.nq[f"{kind}:{r}"] += 1
+            if r != z3.unknown:
+                return r, m
+        return z3.unknown, None
 
     def _witnesses(self, goal, m, evals, k=5):
         """Up to k diverse models of PC & goal, each made realistic where possible."""
